@@ -42,8 +42,8 @@ def _p(**kw):
 
 
 GENS = {
-    "fast_random_hypergraph": _p(n=st.integers(0, 8), ps=st.lists(P, min_size=1, max_size=3), use_order=st.booleans(), order=st.permutations([1, 2, 3, 4])),
-    "random_hypergraph": _p(n=st.integers(0, 8), ps=st.lists(P, min_size=1, max_size=3), use_order=st.booleans(), order=st.permutations([1, 2, 3, 4])),
+    "fast_random_hypergraph": _p(n=st.integers(0, 8), ps=st.lists(P, min_size=1, max_size=3), use_order=st.booleans(), order=st.permutations([1, 2, 3, 4]), argform=st.sampled_from(["list", "list", "numpy", "scalar"])),
+    "random_hypergraph": _p(n=st.integers(0, 8), ps=st.lists(P, min_size=1, max_size=3), use_order=st.booleans(), order=st.permutations([1, 2, 3, 4]), argform=st.sampled_from(["list", "list", "numpy", "scalar"])),
     "uniform_erdos_renyi_hypergraph": _p(n=st.integers(0, 8), m=st.integers(1, 4), p=P, multiedges=st.booleans()),
     "uniform_erdos_renyi_hypergraph-degree": _p(n=st.integers(1, 8), m=st.integers(1, 4), k=st.sampled_from([0, 0.5, 1, 1.5])),
     "uniform_HSBM": _p(m=st.integers(2, 3), sizes=st.lists(st.integers(0, 3), min_size=1, max_size=3), probs=st.lists(st.sampled_from([0, 0.3, 1]), min_size=27, max_size=27)),
@@ -116,7 +116,13 @@ def run_case(case, ctx):
         f = getattr(xgi, g)
         n, ps = p["n"], p["ps"]
         order = list(p["order"])[: len(ps)] if p["use_order"] else None
-        H = f(n, ps, order=order, seed=seed)
+        if p.get("argform") == "scalar":  # documented form: one order as an int with one probability as a float
+            order, ps = [list(p["order"])[0]], [float(ps[0])]
+            H = f(n, ps[0], order=order[0], seed=seed)
+        elif p.get("argform") == "numpy":
+            H = f(n, np.array(ps, float), order=None if order is None else np.array(order), seed=seed)
+        else:
+            H = f(n, ps, order=order, seed=seed)
         orders = order or list(range(1, len(ps) + 1))
         basic(C, H, range(n), sizes={o + 1 for o in orders}, nodup=True)
         for d, pr in zip(orders, ps):
